@@ -34,7 +34,7 @@ PROPS['C15'] = dict(level='model_checking',
   ])
 
 PROPS['C16'] = dict(level='model_checking',
-  bounds='manual-reset event v1: 2 waiters + setter (+ late waiter); latch-mode intrusive list (v2 event waiter list): 2 threads, one operation each, 0-2 queued waiters, K=40-56; async_pass sequential; K per harness',
+  bounds='manual-reset event v1: 2 waiters + setter (+ late waiter); latch-mode intrusive list (v2 event waiter list): 2 threads, one operation each, 0-2 queued waiters, K=40-56; auto-reset event: every plan of 4 events over a queueing scheduler drained after each event; async_pass sequential; K per harness',
   outside='more than 3 parties; the v2 event layers above its waiter list; weak cmpxchg spurious failure (modelled as strong); weak memory',
   harnesses=[
   ] + [SEQ('pass_mode%d' % c, 'C16_pass.cpp', 'h_pass', std='c++20', exc=True, opts=dict(params=[c], max_rec=6), desc='nothrow_async_pass<int>: parked accept + try_call, stop %s; payload symbolic' % ['never', 'inside the caller callback', 'before the call', 'after the call'][c]) for c in range(4)] + [
@@ -225,6 +225,8 @@ PROPS['C19']['harnesses'] += [
   H('sor_two_stops', 'C19_stop_on_request.cpp', ['h_stop_x', 'h_stop_r'], 30, setup='h_setup_started', opts=dict(params=[0]), desc='stop_on_request: started; external and receiver stop requests race'),
   H('sor_prestopped_ext_vs_rcv_stop', 'C19_stop_on_request.cpp', ['h_start', 'h_stop_r'], 30, opts=dict(params=[1]), desc='stop_on_request: external source already stopped; start() races a receiver stop request')]
 PROPS['C04']['harnesses'] += [h for h in PROPS['C19']['harnesses'] if h['name'].startswith('sor_')]
+PROPS['C16']['harnesses'] += [SEQ('aare_plan_%03d_r%d' % (pl, r), 'C16_auto_reset.cpp', 'h_aare', exc=True, no_native=True, tier=('quick' if r == 0 else 'thorough'), opts=dict(params=[pl, r], max_rec=8, max_visits=100),
+   desc='async_auto_reset_event (%s): event plan %s against the reference model' % ('initially set' if r else 'initially unset', ''.join('SDNX'[(pl >> (2 * k)) & 3] for k in range(4)))) for r in (0, 1) for pl in range(256)]
 # cross-registration: harnesses whose assertions also decide clauses of other properties
 PROPS['C04']['harnesses'] += [h for h in PROPS['C01']['harnesses'] if h['name'] in ('wa_race_min', 'sw_race_min')]
 PROPS['C05']['harnesses'] += [h for h in PROPS['C04']['harnesses'] if h['name'] == 'wa_inline_cancel'] + \
